@@ -25,6 +25,12 @@ func skolemizeNegGoal(goal *Term) []*Term {
 		rest := skolemizeNegGoal(goal.Args[1])
 		return append([]*Term{goal.Args[0]}, rest...)
 	}
+	if goal.Op == "exists" {
+		// not (exists v. phi)  ==  forall v. not phi : a quantified hypothesis the instantiation below can use
+		n := len(goal.Args) - 1
+		args := append(append([]*Term{}, goal.Args[:n]...), Not(goal.Args[n]))
+		return []*Term{Forall(args[:n], args[n])}
+	}
 	return []*Term{Not(goal)}
 }
 
